@@ -2034,6 +2034,7 @@ local void gj0SeqSelectMulti(GjSeqStore store, Foam foam);
 local void gj0SeqIf(GjSeqStore store, Foam foam);
 local void gj0SeqSet(GjSeqStore store, Foam foam);
 local void gj0SeqBCall(GjSeqStore store, Foam foam);
+local Bool gj0BCallIsJavaStatement(Foam foam);
 local void gj0SeqPCall(GjSeqStore store, Foam foam);
 local void gj0SeqValues(GjSeqStore store, Foam foam);
 local void gj0SeqThrow(GjSeqStore store, Foam foam);
@@ -2146,6 +2147,18 @@ gj0SeqGen(GjSeqStore seqs, Foam foam)
 	case FOAM_Loc:
 	case FOAM_Lex:
 	case FOAM_Glo:
+	case FOAM_Par:
+	case FOAM_Const:
+	case FOAM_Nil:
+	case FOAM_Char:
+	case FOAM_Bool:
+	case FOAM_Byte:
+	case FOAM_HInt:
+	case FOAM_SInt:
+	case FOAM_BInt:
+	case FOAM_SFlo:
+	case FOAM_DFlo:
+		/* a reference or a literal used as a statement: nothing to do */
 		break;
 	case FOAM_Values:
 		gj0SeqValues(seqs, foam);
@@ -2267,7 +2280,16 @@ gj0SeqBCall(GjSeqStore seqs, Foam foam)
 {
 	JavaCode jc;
 	if (foam->foamBCall.op != FOAM_BVal_Halt) {
-		gj0SeqGenDefault(seqs, foam);
+		int i;
+		if (gj0BCallIsJavaStatement(foam)) {
+			gj0SeqGenDefault(seqs, foam);
+			return;
+		}
+		/* An operator, literal, constant or cast is not a statement
+		 * in Java.  The value is unused here, so only the operands
+		 * are evaluated, in order. */
+		for (i = 0; i < foamBCallArgc(foam); i++)
+			gj0SeqGen(seqs, foam->foamBCall.argv[i]);
 		return;
 	}
 	jc = jcStatement(gj0Gen(foam));
@@ -4409,6 +4431,22 @@ gj0BCall(Foam foam)
 		return gj0BCallException(foam);
 	default:
 		return gj0Default(foam, strCopy("BCallType"));
+	}
+}
+
+/* True if the builtin is rendered as a method call, which Java accepts as a statement */
+local Bool
+gj0BCallIsJavaStatement(Foam foam)
+{
+	GJBValInfo inf = gj0BCallBValInfo(foam->foamBCall.op);
+	switch (inf->method) {
+	case GJ_Apply:
+	case GJ_Meth:
+	case GJ_Exception:
+	case GJ_NotImpl:
+		return true;
+	default:
+		return false;
 	}
 }
 
